@@ -137,9 +137,23 @@ def notification(P, R):
         R.ob('C15.MPT.1', sv.exit not in cut, s, 'after a typed value is replaced every path reaches the hook test', key='reaches:typed')
     # ---- host/service pair and object: in the merge
     rv = P.need_fn('conf_replace_value')
+    # the "membership changed" flag: the int local tested before the object hook, and every local copied into it
+    # (a merge loop moved into a helper keeps its own flag and hands it back)
+    fam = set()
+    for s in [t for t in hs if t.fn is rv]:
+        for g in rv.guards(s.bid):
+            if is_var(g[0]) and g[0].get('t') == 'int' and g[0].get('sc') == 'local' and g[1] == '!=' and const_of(g[2]) == 0:
+                fam.add(g[0]['name'])
+    grew = True
+    while grew:
+        grew = False
+        for t in rv.stores():
+            if t.ev['k'] == 'store' and is_var(t.ev.get('lhs')) and t.ev['lhs']['name'] in fam and t.ev.get('op') == '=' and is_var(t.ev.get('rhs')) and t.ev['rhs']['name'] not in fam:
+                fam.add(t.ev['rhs']['name'])
+                grew = True
     for s in [t for t in hs if t.fn is rv]:
         gs = rv.guards(s.bid)
-        if any(is_var(g[0], 'modified') and g[1] == '!=' for g in gs):
+        if any(is_var(g[0]) and g[0]['name'] in fam and g[1] == '!=' for g in gs):
             R.ob('C15.GRD.1', True, s, 'the object hook runs only when membership was modified', key='predicate:object')
             continue
         # pair: product over the four disjuncts
@@ -166,9 +180,9 @@ def notification(P, R):
         inv = [t for t in rv.stores() if t.ev['k'] == 'store' and is_field(t.ev['lhs'], 'state') and t.bid == s.bid or (t.ev['k'] == 'store' and is_field(t.ev['lhs'], 'state') and rv.dominates(t.bid, s.bid))]
         R.ob('C15.MPT.1', bool(inv), s, 'a changed pair is invalidated (state reset) before its hook runs', key='pair:invalidate', nontrivial=False)
     # splice / removal -> modified
-    mods = [t for t in rv.stores() if t.ev['k'] == 'store' and is_var(t.ev.get('lhs'), 'modified') and const_of(t.ev.get('rhs')) == 1]
+    mods = [t for t in rv.stores() if t.ev['k'] == 'store' and is_var(t.ev.get('lhs')) and t.ev['lhs']['name'] in fam and const_of(t.ev.get('rhs')) == 1]
     for s in rv.calls('set_insert'):
-        if on_path(s.ev['args'][0], 'contents') and root_var(s.ev['args'][0]) is not None and root_var(s.ev['args'][0])['name'] == 'target':
+        if on_path(s.ev['args'][0], 'contents') and root_var(s.ev['args'][0]) is not None and (root_var(s.ev['args'][0])['name'].split('@')[0] == 'target' or root_var(s.ev['args'][0]).get('sc') == 'local'):
             p = rv.path_avoiding(s, lambda t: t in mods)
             R.ob('C15.MPT.1', p is None, s, 'a node spliced into an object marks the object modified', key='splice->modified')
     for bid in rv.reachable_blocks():
